@@ -31,6 +31,12 @@ fn ipp_uri_to_string(uri: &Uri) -> String {
     format!("{}://{}{}", scheme, authority, path_and_query)
 }
 
+/// Verification hook: exposes the private URL mapping to the runtime monitors.
+#[cfg(ancwrd1_ipp_rs_verif)]
+pub fn verif_transport_url(uri: &Uri) -> String {
+    ipp_uri_to_string(uri)
+}
+
 /// Builder to create IPP client
 pub struct IppClientBuilder<T> {
     uri: Uri,
